@@ -63,13 +63,13 @@ type Mut struct {
 }
 
 // MutOps are the byte-level mutation operators.
-var MutOps = []string{"flip", "trunc", "append", "set", "insert", "delete", "dup"}
+var MutOps = []string{"flip", "trunc", "append", "set", "insert", "delete", "dup", "flip-tail", "trunc-tail"}
 
 // GenMut draws one mutation.
 func GenMut(t *rapid.T, label string) Mut {
 	return Mut{
 		Op:  rapid.SampledFrom(MutOps).Draw(t, label+".op"),
-		Pos: rapid.IntRange(0, 4096).Draw(t, label+".pos"),
+		Pos: rapid.OneOf(rapid.IntRange(0, 4096), rapid.IntRange(0, 4096), rapid.IntRange(0, 1<<20)).Draw(t, label+".pos"),
 		Val: rapid.IntRange(0, 255).Draw(t, label+".val"),
 	}
 }
@@ -84,6 +84,18 @@ func (m Mut) Apply(b []byte) []byte {
 			return out
 		}
 		out[m.Pos%n] ^= 1 << (uint(m.Val) % 8)
+	case "flip-tail":
+		// one bit in one of the last 16 bytes
+		if n == 0 {
+			return out
+		}
+		out[n-1-(m.Pos%min(n, 16))] ^= 1 << (uint(m.Val) % 8)
+	case "trunc-tail":
+		// drops the last 1..64 bytes
+		if n == 0 {
+			return out
+		}
+		out = out[:n-1-(m.Pos%min(n, 64))]
 	case "trunc":
 		if n == 0 {
 			return out
@@ -113,6 +125,16 @@ func (m Mut) Apply(b []byte) []byte {
 		out = append(out[:p], append(append([]byte{}, out[p:]...), out[p:]...)...)
 	}
 	return out
+}
+
+// BigLen draws the length of a large deterministic body: 0 (none) most of the time, otherwise lengths around
+// the block / buffer sizes implementations like to use, or anything up to 100 000.
+func BigLen(t *rapid.T, label string) int {
+	return rapid.OneOf(
+		rapid.Just(0), rapid.Just(0), rapid.Just(0), rapid.Just(0), rapid.Just(0), rapid.Just(0),
+		rapid.SampledFrom([]int{4095, 4096, 4097, 8191, 8192, 8193, 12000, 16383, 16384, 16385, 20000, 32768, 32769, 65535, 65536, 65537, 70001}),
+		rapid.IntRange(5001, 100000),
+	).Draw(t, label)
 }
 
 // DetStream is a deterministic io.Reader keyed by a seed.
